@@ -20,7 +20,7 @@ ASSUMPTIONS = [
     "conjugacy is asserted for the three precisions the statement names (observation noise, intercept scale tau0, embedding scales tau via the multiplicative gamma process); the local/global shrinkage blocks (phi*, eta*) are checked for order, bounds and finiteness only (no documented prior beyond the code)",
     "the gamma rate may carry the code's +1e-3 stabiliser (both b and b+1e-3 accepted)",
     "rows with the same non-control treatment in both positions are excluded (the mean is quadratic in that embedding: no Gaussian full conditional exists)",
-    "tolerance 1e-3 x (|mean|+sd) + 1e-5: the sampler keeps parameters and fitted values in float32; numpy's normal/gamma generators are trusted given their parameters",
+    "tolerance 1e-3 x (|mean|+sd) + 1e-5 (vector blocks: (1e-3 + 1e-6 x cond(Q)) x (|mean|+sd), capped at 0.2): the sampler keeps parameters, design matrices and fitted values in float32; numpy's normal/gamma generators are trusted given their parameters",
     "block methods and training arrays are attached by name on the wrapped implementation (a rename is a harness error, exit 2)",
 ]
 
@@ -202,7 +202,10 @@ class Recorder:
             except np.linalg.LinAlgError:
                 continue
             e1 = float(np.max(np.abs(Q - Qo))) / (1e-3 * max(1.0, float(np.max(np.abs(Qo)))))
-            e2 = float(np.max(np.abs(m - mo) / (1e-3 * (np.abs(mo) + sd) + 1e-5)))
+            # the sampler builds Q and b from float32 arrays: a relative rounding error of ~1e-7 in Q moves Q^-1 b by about
+            # cond(Q) x 1e-7 relative, so the tolerance of the mean grows with the conditioning of the block's precision matrix
+            rel = min(0.2, 1e-3 + 8 * 1.2e-7 * float(np.linalg.cond(Qo)))
+            e2 = float(np.max(np.abs(m - mo) / (rel * (np.abs(mo) + sd) + 1e-5)))
             err = max(e1, e2)
             if best is None or err < best[0]:
                 best = (err, c, mo, sd, m, nobs, e1, e2)
